@@ -347,13 +347,14 @@ type Engine struct {
 	dtByType  map[string]*DTDecl
 	ifaces    map[int64]*IfaceV
 	chanInvs  map[int][]*ChanInvDecl // invariants of channels received from outside, by object id
+	semaphores map[int]bool          // channel objects used as counting semaphores
 	owner     map[int]writeRec       // storage object id -> struct location last known to hold the reference
 	unmodelled map[string]int // names of havoc'd / unmodelled constructs → count
 	assumptionsUsed map[string]bool
 }
 
 func newEngine() *Engine {
-	return &Engine{owner: map[int]writeRec{}, chanInvs: map[int][]*ChanInvDecl{}, ifaces: map[int64]*IfaceV{}, objByName: map[string]*Object{}, dtByType: map[string]*DTDecl{}, unmodelled: map[string]int{}, assumptionsUsed: map[string]bool{}}
+	return &Engine{semaphores: map[int]bool{}, owner: map[int]writeRec{}, chanInvs: map[int][]*ChanInvDecl{}, ifaces: map[int64]*IfaceV{}, objByName: map[string]*Object{}, dtByType: map[string]*DTDecl{}, unmodelled: map[string]int{}, assumptionsUsed: map[string]bool{}}
 }
 
 func (e *Engine) note(what string) { e.unmodelled[what]++ }
